@@ -2,6 +2,7 @@ import Driver.Drv.Ban
 import Driver.Drv.BlockMgr
 import Driver.Drv.CFHeaders
 import Driver.Drv.Dispatcher
+import Driver.Drv.Import
 import Driver.Drv.Lru
 import Driver.Drv.PushTx
 import Driver.Drv.Store
@@ -13,6 +14,7 @@ def drivers : List (String × CaseFn) := [
   ("blockmgr", Driver.Drv.BlockMgr.runCase),
   ("cfheaders", Driver.Drv.CFHeaders.runCase),
   ("dispatcher", Driver.Drv.Dispatcher.runCase),
+  ("import", Driver.Drv.Import.runCase),
   ("lru", Driver.Drv.Lru.runCase),
   ("pushtx", Driver.Drv.PushTx.runCase),
   ("store", Driver.Drv.Store.runCase),
